@@ -300,3 +300,18 @@ def count_paths(cfg, limit=100000, max_visits=2):
             v2[b] = v + 1
             stack.append((b, v2))
     return count
+
+
+def reachable_avoiding(cfg, start, avoid, edge_ok=None):
+    """node ids reachable from `start` without entering any node of `avoid`"""
+    seen = set()
+    stack = [start]
+    while stack:
+        x = stack.pop()
+        if x in seen or (x in avoid and x != start):
+            continue
+        seen.add(x)
+        for (b, l) in cfg.succ[x]:
+            if edge_ok is None or edge_ok(l):
+                stack.append(b)
+    return seen
